@@ -11,14 +11,21 @@ which are the INPUT of the model, and a list of queries answered by the model an
            partial match, not found, error)
     N      lyd_new_path2(NULL, ..) created tree or error                 = new_path on the empty tree
     X      lyd_new_path2(tree, ..): LY_EEXIST / error / attach point and created chain = new_path on the tree
+    Y      lyd_find_xpath(tree, printed path) selects exactly the node find_path finds (property-level expectation: the XPath
+           evaluator is not modelled; asked for printed paths of data and notification trees only)
+    G      lyd_change_term() of a key / configuration leaf-list node, then the NEW lyd_path() of the node finds it again
+           (lyd_find_path, lyd_find_xpath) and lyd_new_path2() reports LY_EEXIST (checked inside the driver, model: ok)
 for the path of every node and for mutated paths: dropped / duplicated / reordered key predicates, wrong, missing and
 redundant prefixes (also on key names), position 0 / out of range / far too big, predicates on the wrong node kind,
 numbers instead of literals, the other quote, white space between tokens, trailing garbage, other XPath tokens, truncated
 paths, paths of nodes that do not exist yet (creation below an existing node).
 
 Restrictions (the model answers E_UNSUP otherwise; the generator stays inside): absolute paths, no XPath variables, no
-byte above 127 outside literals; every key, leaf-list and leaf is of type string (the model has no canonicalisation:
-typed keys in non-canonical spelling are covered by the oracle props.comps_paths.PathsOps)."""
+byte above 127 outside literals; keys, leaf-lists and leaves are of type string, int8 .. uint64, boolean or enumeration
+(PathModel.canon; no ranges, lengths, patterns): the printed path carries the canonical value, mutated paths and values
+carry other lexical forms (+7, 007, blank 7, 7 blank, -0, True, ...) that have to find / create the same node, and forms the
+type rejects. Other types (identityref, instance-identifier, decimal64, bits, union, empty) are covered at oracle level by
+props.comps_paths.PathsOps only."""
 import json as _json
 
 import vlib
@@ -47,6 +54,47 @@ def rand_value(rng, both_ok=False):
 # ------------------------------------------------------------------------------------------------
 # schema
 # ------------------------------------------------------------------------------------------------
+ENUM_NAMES = ["up", "down", "a b", "it's", "x/y", "[1]", "k='v'", "and", "true", "7", "-1", "Up"]
+INT_BOUNDS = {"int8": (-128, 127), "uint8": (0, 255), "int16": (-32768, 32767), "int32": (-2 ** 31, 2 ** 31 - 1),
+              "uint32": (0, 2 ** 32 - 1), "int64": (-2 ** 63, 2 ** 63 - 1), "uint64": (0, 2 ** 64 - 1)}
+
+
+def rand_type(rng):
+    r = rng.random()
+    if r < 0.5:
+        return ("string",)
+    if r < 0.78:
+        return (rng.choice(["int8", "int8", "uint8", "uint8", "int16", "int32", "uint32", "int64", "uint64"]),)
+    if r < 0.88:
+        return ("boolean",)
+    return ("enum", rng.sample(ENUM_NAMES, rng.randrange(2, 5)))
+
+
+def type_yang(t):
+    if t[0] == "enum":
+        return "type enumeration { %s }" % " ".join('enum "%s";' % n for n in t[1])      # names without " and \\
+    return "type %s;" % t[0]
+
+
+def type_value(rng, t):
+    """a value of the type as it goes into the JSON document (canonical)"""
+    if t[0] == "string":
+        return None
+    if t[0] == "boolean":
+        return rng.random() < 0.5
+    if t[0] == "enum":
+        return rng.choice(t[1])
+    lo, hi = INT_BOUNDS[t[0]]
+    v = rng.choice([lo, hi, 0, 1, 7, 10, 100, rng.randrange(lo, hi + 1), rng.randrange(max(lo, -20), min(hi, 20) + 1)])
+    return str(v) if t[0] in ("int64", "uint64") else v
+
+
+def assign_types(rng, nodes):
+    for n in walk(nodes):
+        if n.kind in ("leaf", "leaf-list"):
+            n.vtype = rand_type(rng)
+
+
 class S:
     def __init__(self, mod, name, kind, children=None, keys=None, config=True, inp=None, outp=None):
         self.mod, self.name, self.kind = mod, name, kind       # kind: container list leaf leaf-list anydata choice rpc notif
@@ -61,7 +109,7 @@ class S:
         cfg = "" if (self.config == cfg_parent or self.config is None) else ind + "  config false;\n"
         k = self.kind
         if k in ("leaf", "leaf-list"):
-            return "%s%s %s {\n%s  type string;\n%s%s}\n" % (ind, k, self.name, ind, cfg, ind)
+            return "%s%s %s {\n%s  %s\n%s%s}\n" % (ind, k, self.name, ind, type_yang(getattr(self, "vtype", ("string",))), cfg, ind)
         if k == "anydata":
             return "%sanydata %s {\n%s%s}\n" % (ind, self.name, cfg, ind)
         if k == "choice":
@@ -229,6 +277,7 @@ def gen_modules(rng, two=True, ops=True):
             top2.append(S("m2", top[0].name, "container", g2.nodes(1, True, set()), config=True))
         if rng.random() < 0.4:
             top2.append(g2.list(1, True, set([top[0].name])))
+    assign_types(rng, top + rpcs + notifs + top2)
     return top, rpcs, notifs, augs, top2
 
 
@@ -288,11 +337,23 @@ class InstGen:
         self.both_prob = both_prob
         self.both = False
 
-    def value(self):
+    def value(self, n=None):
+        t = getattr(n, "vtype", ("string",)) if n is not None else ("string",)
+        if t[0] != "string":
+            return type_value(self.rng, t)
         if self.rng.random() < self.both_prob:
             self.both = True
             return rand_value(self.rng) .replace("'", "") + "'\""
         return rand_value(self.rng)
+
+    def spell(self, n, v):
+        """document spelling of a value: a 64-bit integer (a JSON string) sometimes with a plus sign - the tree and the
+        printed path carry the canonical form (other spellings cannot be written as JSON numbers; leading zeros in a
+        JSON string are left to the oracle paths-ops)"""
+        t = getattr(n, "vtype", ("string",))
+        if t[0] in ("int64", "uint64") and isinstance(v, str) and not v.startswith("-") and self.rng.random() < 0.4:
+            return "+" + v
+        return v
 
     def member(self, n, parent_mod):
         return n.name if n.mod == parent_mod else "%s:%s" % (n.mod, n.name)
@@ -314,31 +375,32 @@ class InstGen:
             if n.kind == "container":
                 o[nm] = self.obj(n.children, n.mod, in_op)
             elif n.kind == "leaf":
-                o[nm] = self.value()
+                o[nm] = self.spell(n, self.value(n))
             elif n.kind == "anydata":
                 o[nm] = {}
             elif n.kind == "leaf-list":
                 dup = (not n.config) or in_op
                 vals = []
                 for _ in range(rng.randrange(1, 5)):
-                    v = rng.choice(vals) if (dup and vals and rng.random() < 0.4) else self.value()
+                    v = rng.choice(vals) if (dup and vals and rng.random() < 0.4) else self.value(n)
                     if dup or v not in vals:
                         vals.append(v)
-                o[nm] = vals
+                o[nm] = [self.spell(n, v) for v in vals]
             elif n.kind == "list":
                 insts, seen = [], set()
                 # key values mostly from a small pool per key: instances that share some but not all of their keys
-                pools = [[self.value() for _ in range(rng.randrange(1, 4))] for _ in n.keys]
+                kl = [next(c for c in n.children if c.kind == "leaf" and c.name == k and c.mod == n.mod) for k in n.keys]
+                pools = [[self.value(c) for _ in range(rng.randrange(1, 4))] for c in kl]
                 for _ in range(rng.randrange(1, 4 if len(n.keys) < 2 else 6)):
                     e = {}
-                    kv = tuple((rng.choice(pl) if rng.random() < 0.75 else self.value()) for pl in pools)
+                    kv = tuple((rng.choice(pl) if rng.random() < 0.75 else self.value(c)) for pl, c in zip(pools, kl))
                     if n.keys and kv in seen:
                         continue
                     seen.add(kv)
                     rest = [c for c in n.children if not (c.kind == "leaf" and c.name in n.keys and c.mod == n.mod)]
                     body = self.obj(rest, n.mod, in_op)
-                    for k, v in zip(n.keys, kv):
-                        e[k] = v
+                    for k, v, c in zip(n.keys, kv, kl):
+                        e[k] = self.spell(c, v)
                     e.update(body)
                     if not n.keys and insts and rng.random() < 0.3:
                         e = dict(rng.choice(insts))           # equal key-less instances
@@ -368,7 +430,7 @@ def gen_doc(rng, top, rpcs, notifs, top2, both_prob):
 # dumps -> structure
 # ------------------------------------------------------------------------------------------------
 class N:
-    __slots__ = ("mod", "name", "kind", "value", "children", "parent")
+    __slots__ = ("mod", "name", "kind", "type", "value", "children", "parent")
 
     def __init__(self, mod, name, kind, value):
         self.mod, self.name, self.kind, self.value = mod, name, kind, value
@@ -383,7 +445,9 @@ def parse_dump(s):
     for r in s.split(";"):
         f = r.split(",")
         d = int(f[0])
-        n = N(f[1], f[2], f[3], unhex(f[4]) if len(f) > 4 and f[4] != "-" else b"")
+        kd, _, ty = f[3].partition("~")
+        n = N(f[1], f[2], kd, unhex(f[4]) if len(f) > 4 and f[4] != "-" else b"")
+        n.type = ty or None
         del stack[d:]
         if stack:
             n.parent = stack[-1]
@@ -487,6 +551,32 @@ BIGPOS = [b"0", b"00", b"01", b"1.0", b"1.9", b"0.9", b".5", b"2", b"3", b"9", b
           b"18446744073709551616", b"99999999999999999999", b"1.", b"1.e"]
 
 
+def respell(rng, value, ty):
+    """another lexical form of a typed value (bytes): mostly one the type accepts and maps to the same canonical value,
+    sometimes one it rejects or that names another value"""
+    if not ty or ty == "s" or ty == "x":
+        return value
+    r = rng.random()
+    if ty[0] in "iu":
+        try:
+            v = int(value)
+        except ValueError:
+            return value
+        forms = ["+%d" % v if v >= 0 else "-0%d" % -v, "%s00%d" % ("-" if v < 0 else "", abs(v)), " %d" % v, "%d " % v, "\t%d\n" % v,
+                 " +%d " % v if v >= 0 else " %d " % v]
+        if v == 0:
+            forms += ["-0", "+0", "000"]
+        bad = ["%d.0" % v, "0x%x" % abs(v), "%da" % v, "", " ", "+", "-", "+-%d" % v, "%d %d" % (v, v), str(v + 2 ** int(ty[1:]) if v >= 0 else v - 2 ** int(ty[1:])),
+               str(v + 1), "1e1"]
+        return (rng.choice(forms) if r < 0.75 else rng.choice(bad)).encode()
+    if ty == "b":
+        return rng.choice([b"true", b"false", b" true", b"true ", b"True", b"TRUE", b"1", b"0", b""])
+    if ty[0] == "e":
+        names = [unhex(h) for h in ty[1:].split(".")]
+        return rng.choice(names + [names[0] + b" ", b" " + names[0], names[0].upper(), b"", b"zz"])
+    return value
+
+
 def mutations(rng, n, roots, sroots, count):
     """mutated paths (bytes) derived from the path of node n"""
     segs = segs_of(n, roots)
@@ -494,7 +584,7 @@ def mutations(rng, n, roots, sroots, count):
 
     def cp():
         return [[s[0], s[1], list(s[2])] for s in segs]
-    kinds = list(range(24))
+    kinds = list(range(24)) + [24, 24, 24]
     rng.shuffle(kinds)
     for kd in kinds:
         if len(out) >= count:
@@ -604,6 +694,24 @@ def mutations(rng, n, roots, sroots, count):
                 s[2][j] = head + b"=" + rng.choice([b"''", b"' '", b'""']) + b"]"
             else:
                 continue
+        elif kd == 24:                                            # other lexical forms of typed key / leaf-list values
+            x = n
+            chain = []
+            while x is not None:
+                chain.append(x)
+                x = x.parent
+            chain.reverse()
+            hit = False
+            for k, x in enumerate(chain):
+                if x.kind in ("L00", "L01") and any(c.type not in (None, "s") for c in lead_keys(x)):
+                    m[k][2] = [b"[" + c.name.encode() + b"=" + quote(respell(rng, c.value, c.type) if rng.random() < 0.8 else c.value) + b"]"
+                               for c in lead_keys(x)]
+                    hit = True
+                elif x.kind == "T1" and x.type not in (None, "s"):
+                    m[k][2] = [b"[.=" + quote(respell(rng, x.value, x.type)) + b"]"]
+                    hit = True
+            if not hit:
+                continue
         elif kd == 23:                                            # predicates of another segment
             j = rng.randrange(len(m))
             s[2] = list(m[j][2])
@@ -666,6 +774,7 @@ class PathModel(Comp):
                 self.stats["rejected"] += 1
                 continue
             sd, td = out.split(" ")
+            typ = line.split("\t")[1]
             roots = parse_dump(td)
             sroots = parse_dump(sd)
             nodes = list(nwalk(roots))
@@ -681,10 +790,16 @@ class PathModel(Comp):
                 ip = index_path(n, roots)
                 qs += ["F:" + ph, "N:%s:%s" % (ph, vh), "X:%s:%s" % (ph, vh)]
                 meta += [("F", ip), ("N", ip), ("X", ip)]
+                if typ in ("d", "n") and not both:
+                    qs.append("Y:" + ph)                   # lyd_find_xpath() of the printed path: exactly the node
+                    meta.append(("Y", ip))
+                if n.type not in (None, "s") and n.kind in ("f0", "T0", "T1"):
+                    qs.append("N:%s:%s" % (ph, hexs(respell(rng, n.value, n.type))))
+                    meta.append(("N", None))
                 for mp in mutations(rng, n, roots, sroots, per):
                     mh = hexs(mp)
                     r = rng.random()
-                    v = rng.choice([n.value, rand_value(rng).encode(), b"", b"\xff"])
+                    v = rng.choice([n.value, respell(rng, n.value, n.type), rand_value(rng).encode(), b"", b"\xff"])
                     if v[:1] in (b"<", b"{") or v[:3] == b"lyb":
                         v = b"v" + v          # an anydata value that looks like XML / JSON / LYB is parsed: not modelled
                     v = hexs(v)
@@ -696,6 +811,13 @@ class PathModel(Comp):
                     elif r < 0.75:
                         qs.append("N:%s:%s" % (mh, v))
                         meta.append(("N", None))
+            # last (they may reorder siblings for a moment): change a key / configuration leaf-list value, the NEW path of the
+            # node has to identify it
+            cands = [n for n in nodes if n.kind in ("f1", "T1") and n.type == "s"]
+            rng.shuffle(cands)
+            for k, n in enumerate(cands[:6] if not both else []):
+                qs.append("G:%s:%s" % (hexs(render(segs_of(n, roots))), hexs(("G%d-" % k + rng.choice(["", "a b", "'", "]", "/"])).encode())))
+                meta.append(("G", index_path(n, roots)))
             f = line.split("\t")
             cl = "\t".join(["pm"] + f[1:] + [sd, td] + qs)
             self.info[cl] = (meta, both)
@@ -729,6 +851,12 @@ class PathModel(Comp):
             elif q[0] == "X":
                 bad = b not in ("X:E4", "X:-:-")
                 want = "lyd_new_path() on the tree has to report LY_EEXIST"
+            elif q[0] == "Y":
+                bad = b != "Y:" + ip
+                want = "lyd_find_xpath() has to return exactly that node"
+            elif q[0] == "G":
+                bad = b != "G:ok"
+                want = "after lyd_change_term() of the node the path lyd_path() prints for it has to identify it"
             else:
                 bad = True
                 want = "lyd_new_path() on an empty tree has to create the node and its ancestors: " + a[:200]
